@@ -9,6 +9,7 @@ from Gen/StorageTables.lean, regenerated from the current source on every run.
 import EzdxfVerif.Lemmas.Storage
 import EzdxfVerif.Lemmas.StorageDoc
 import EzdxfVerif.Lemmas.StorageIdem
+import EzdxfVerif.Lemmas.StorageFinal
 
 namespace EzdxfVerif.Props.C02
 open EzdxfVerif.XTags EzdxfVerif.Storage EzdxfVerif.StorageDoc EzdxfVerif.Gen.StorageTables
@@ -676,6 +677,64 @@ theorem xrecord_roundtrip (alive : V → Bool) (t : List Tag) (h : entityWF aliv
   simp only [canon, h2]
   conv => rhs; rw [← h9]
 
+/-! ## final round: every accepted input at section level, binary chunks -/
+
+/-- the DXF type of a loaded record that starts with a structure tag is the value of that tag (removes the hypothesis
+    "`e.typ` = type of the record" from the section-level statements) -/
+theorem loaded_type_is_record_type (t0 : Tag) (r : List Tag) (e : Ent) (h0 : t0.code = 0) (h : load (t0 :: r) = .ok e) :
+    e.typ = t0.val :=
+  load_typ t0 r e h0 h
+
+/-- Entity spaces, second cycle, WITHOUT EntityWF: unknown records that the loader accepts (any order, duplicates, foreign
+    base-class tags, invalid XDATA codes …; tie-free reactors) are written, and what is written is read back and written again
+    tag for tag - `storage_idempotent_any` lifted from one entity to a whole entity space (ENTITIES layouts, block contents,
+    OBJECTS) -/
+theorem entity_space_second_cycle (cfg : DocCfg) (gs : List (Rec × List Rec))
+    (hunk : ∀ g ∈ gs, isUnknown g.1 = true)
+    (hload : ∀ g ∈ gs, ∃ e, load g.1 = .ok e ∧ tieFree e = true ∧ e.typ = recType g.1) :
+    ∃ us : List Rec, us.length = gs.length ∧ writeGroups cfg gs = .ok us.flatten
+      ∧ writeGroups cfg (us.map (fun u => (u, []))) = .ok us.flatten :=
+  writeGroups_second_cycle cfg gs hunk hload
+
+/-- … for the OBJECTS section of a file: every record of an unknown type starts with a structure tag, is accepted by the loader
+    and has tie-free reactors -> the section is written and is a fixed point of load -> save (no EntityWF) -/
+theorem objects_second_cycle (cfg : DocCfg) (hskip : ∀ r, cfg.skipObject r = false) (recs : List Rec)
+    (hunk : ∀ r ∈ recs, isUnknown r = true)
+    (hload : ∀ r ∈ recs, ∃ t0 tl e, r = t0 :: tl ∧ t0.code = 0 ∧ load r = .ok e ∧ tieFree e = true) :
+    ∃ us : List Rec, us.length = recs.length ∧ objectsPass cfg recs [] = .ok us.flatten
+      ∧ objectsPass cfg us [] = .ok us.flatten :=
+  objects_second_cycle_ok cfg hskip recs hunk hload
+
+/-- export of the record sections cannot fail after a successful load (lifts `export_never_fails_after_load` to ENTITIES and
+    OBJECTS: once the linker accepted the section and every unknown record was loaded, the section is written) -/
+theorem sections_export_total (cfg : DocCfg) (recs : List Rec) (appended : List Tag)
+    (h : ∀ r ∈ recs, isUnknown r = true → ∃ e, load r = .ok e) :
+    (∃ out, objectsPass cfg recs appended = .ok out)
+      ∧ ∀ gs, linkRecs cfg recs none = .ok gs → ∃ out, entitiesPass cfg recs = .ok out :=
+  ⟨objectsPass_total cfg recs appended h, fun gs hl => entitiesPass_total cfg recs gs hl h⟩
+
+/-- Binary chunks (`Gen.binaryCodes` = types.BINARY_DATA: 310..319 proxy graphics / ACIS / OLE data, 1004 XDATA) of a well-formed
+    unknown entity: kept with value and multiplicity always, and tag for tag IN ORDER whenever the base class (the tags in front
+    of the first subclass / embedded object / XDATA marker) holds none - the case of every proxy graphic and XDATA chunk -/
+theorem binary_chunks_verbatim (alive : V → Bool) (t : List Tag) (h : entityWF alive t = true) :
+    ∃ u t0 pre rest, roundtrip alive t = .ok u ∧ t = t0 :: (pre ++ rest)
+      ∧ (u.filter isBinary).Perm (t.filter isBinary)
+      ∧ (pre.filter isBinary = [] → u.filter isBinary = t.filter isBinary) :=
+  binary_chunks_ok alive t h
+
+/-- Unknown sections, second cycle: the unknown sections written by load -> save, read as a file again, are written identically
+    (the file made of them is a fixed point of the stored-section path) -/
+theorem unknown_sections_second_cycle (secs : List Sec) (hwf : ∀ s ∈ secs, secWF s = true)
+    (hn : (secs.map (fun s => s.name)).Nodup) :
+    passSections (fileOf secs) = .ok ((secs.filter unmanaged).flatMap Sec.tags)
+      ∧ passSections (fileOf (secs.filter unmanaged)) = .ok ((secs.filter unmanaged).flatMap Sec.tags) := by
+  refine ⟨sections_passthrough secs hwf hn, ?_⟩
+  have h2 := sections_passthrough (secs.filter unmanaged)
+    (fun s hs => hwf s (List.mem_filter.mp hs).1)
+    ((List.filter_sublist.map _).nodup hn)
+  rw [h2, List.filter_filter]
+  simp
+
 /-! ## non-vacuity -/
 
 #guard entityWF allAlive widget && entityOrdered widget
@@ -722,6 +781,14 @@ open EzdxfVerif.StorageDoc.Ex
 #guard entityWF allAlive (T 0 "TABLE" :: exTableRest)
 #guard ((load (T 0 "TABLE" :: T 2 "LAYER" :: exTableRest)).toOption.bind fun e => (exportTableHead allAlive (S "3") (S "LAYER") e).toOption)
   == some exTableOut
+-- final round: malformed unknown objects (outside EntityWF) form a section that is a fixed point; binary chunks of the widget
+#guard [altClose, dupXdata, foreignBase, twoHandles, dupAppKey].all (fun t => isUnknown t && !entityWF allAlive t)
+#guard (match objectsPass exCfg [altClose, dupXdata, foreignBase, twoHandles, dupAppKey] [] with
+  | .ok out => out == (altCloseOut ++ dupXdataOut ++ foreignBaseOut ++ twoHandlesOut ++ dupAppKeyOut)
+      && (objectsPass exCfg [altCloseOut, dupXdataOut, foreignBaseOut, twoHandlesOut, dupAppKeyOut] []).toOption == some out
+  | .error _ => false)
+#guard (widget.filter isBinary) == [T 310 "DEADBEEF"] && (pspWidget.filter isBinary) == [T 1004 "DEADBEEF"]
+#guard (roundtrip allAlive widgetShuffled).toOption.map (fun u => u.filter isBinary) == some [T 310 "DEADBEEF"]
 #guard acdsRecWF acdsRecord && !acdsRecWF acdsStray
 #guard acdsPass acdsHead [acdsSchema, acdsRecord] == some (acdsHead ++ acdsSchema ++ acdsRecord ++ [endsecTag])
 
